@@ -130,7 +130,7 @@ func RunCcelCase(cs map[string]any, id int, seed int64, bits int) Result {
 			c0 := gen.Build(gen.World{"modBranch": "modOk"}, gen.Params{Seed: wseed, Header: sq.Header, Body: sq.Body})
 			opts.Verification = VerifyOpts(c0, map[string]any{"gc": false, "cr": false})
 			var st0 *state.FirmwareLogState
-			o0 := Guard(30*time.Second, func() error {
+			o0 := Guard(120*time.Second, func() error {
 				var err error
 				st0, err = rtmr.ParseCcelWithTdQuote(s.log, s.table, MsgFromQuote(c0.Q), &opts)
 				return err
@@ -214,7 +214,7 @@ func RunCcelCase(cs map[string]any, id int, seed int64, bits int) Result {
 			logBytes = nil
 		}
 		var st *state.FirmwareLogState
-		out := Guard(30*time.Second, func() error {
+		out := Guard(120*time.Second, func() error {
 			var err error
 			st, err = rtmr.ParseCcelWithTdQuote(logBytes, s.table, msg, &opts)
 			return err
